@@ -7,7 +7,7 @@ kinds:
   faketelnet  the real TelnetTransport / AsynctelnetTransport over in-process fake sockets / streams
   (real rigs — fake ssh on a pty, loopback TCP telnet, loopback asyncssh server — are in c11real.py)
 """
-import asyncio, io, os, sys, tempfile, threading
+import asyncio, io, os, sys, tempfile, threading, time
 from typing import List, Optional
 
 from harness.simdevice import CliDevice
@@ -69,6 +69,18 @@ class TSim(_RefuseMixin, SimTransport):
         self._maybe_refuse()
         self._new_session()
         SimTransport.open(self)
+
+    def read(self) -> bytes:
+        if self.on_empty != "block":
+            return SimTransport.read(self)
+        # really blocking read for the runs with the real SIGALRM timer: plain sleeps, no threading.Event -- the signal
+        # handler calls close() -> Event.set(), which dead-locks when the signal lands inside Event.wait() of the same thread
+        self._pre_read()
+        while not self.buf:
+            time.sleep(0.005)
+            if not self.opened:
+                raise ScrapliConnectionError("transport closed while blocked in read")
+        return self._take()
 
 
 class TAsyncSim(_RefuseMixin, AsyncSimTransport):
